@@ -121,8 +121,13 @@ impl Gatekeeper {
 
     /// Gets the data held by the tower about a given user.
     pub(crate) fn get_user_info(&self, user_id: UserId) -> Option<(UserInfo, Vec<Locator>)> {
-        let info = self.registered_users.lock().unwrap().get(&user_id).cloned();
-        info.map(|info| (info, self.dbm.lock().unwrap().load_user_locators(user_id)))
+        // The users lock is held while the appointments are loaded so both belong to the same state: refunds, charges and
+        // renewals take the users lock first and the database one later, and hold the former until they are done.
+        let registered_users = self.registered_users.lock().unwrap();
+        registered_users
+            .get(&user_id)
+            .cloned()
+            .map(|info| (info, self.dbm.lock().unwrap().load_user_locators(user_id)))
     }
 
     /// Authenticates a user.
